@@ -312,6 +312,64 @@ pub fn read_fault_consistent(
     }
 }
 
+/// Decode `b` through a reader that declines requests (`reader`) and judge
+/// the result against the fault-free decode of the same octets with the
+/// relaxed oracle above. The fault-free decode itself is judged by the
+/// caller's ordinary oracle.
+pub fn check_read_faults(
+    prop: &str,
+    b: &[u8],
+    opts: Option<Opts>,
+    reader: &ReaderCfg,
+    cls: &str,
+    obs: &mut crate::core::Obs,
+) -> Result<(), crate::core::Failure> {
+    let base = match decode_msg(b, opts, &ReaderCfg::Real, false) {
+        Ok(o) => o,
+        Err(_) => return Ok(()), // totality: C01
+    };
+    let got = match decode_msg(b, opts, reader, false) {
+        Ok(o) => o,
+        Err(_) => return Ok(()),
+    };
+    obs.reader_calls += got.mon.calls;
+    let fail = |oracle: &str, d: String| {
+        crate::core::Failure::new(
+            prop,
+            oracle,
+            cls,
+            format!(
+                "via a reader that declines requests across {:?} on {} octets {}: {}",
+                reader,
+                b.len(),
+                crate::model::to_hex(&b[..b.len().min(96)]),
+                d
+            ),
+        )
+    };
+    if got.mon.refusals.is_empty() {
+        obs.count("probe:refusing-reader-no-fault-fired");
+        let same = match (&base.result, &got.result) {
+            (Ok(x), Ok(y)) => x == y,
+            (Err(x), Err(y)) => x == y,
+            _ => false,
+        };
+        if !same {
+            return Err(fail(
+                "same-result-on-every-reader",
+                format!("no request was declined, yet {} instead of {}", result_text(&got.result), result_text(&base.result)),
+            ));
+        }
+        return Ok(());
+    }
+    obs.add("fault:read-declined", got.mon.refusals.len() as u64);
+    if hidden_payload_declined(b, &got.mon.refusals) {
+        obs.count("skipped:hidden-payload-declined-unspecified");
+        return Ok(());
+    }
+    read_fault_consistent(&base.result, &got.result).map_err(|d| fail("read-fault-changes-only-read-errors", d))
+}
+
 /// Was one of the declined requests the payload of a hidden AVP? The
 /// library's handling of that case (it carries on as if the payload were
 /// empty, without skipping it) is outside every property; such runs are not
